@@ -1,15 +1,21 @@
 package main
 
 import (
+	"encoding/hex"
 	"fmt"
 	"reflect"
+	"sort"
 	"strconv"
 	"strings"
+	"time"
 
 	kmip "github.com/smira/go-kmip"
 
 	"kvharness/internal/drv"
+	"kvharness/internal/gen"
 	"kvharness/internal/gentab"
+	"kvharness/internal/mut"
+	"kvharness/internal/render"
 )
 
 // ---- C18: constants and tag-name resolution vs the registry ---------------------------------------------
@@ -72,7 +78,7 @@ func init() { props["C19"] = runC19 }
 
 func runC19(r *Result, d *drv.Driver, tier string, seed int64, replay string) {
 	r.Rule = "exhaustive: every annotated field of every exported struct type (195 fields, 58 types) — the number its annotation resolves to through the real Encode against the tag KMIP 1.4 assigns (SpecStructs, transcribed independently); " +
-		"every (struct type, tag it is written under) pair against the structure the spec puts directly around the type's items. distinct = one per field / per (type, container) pair"
+		"every (struct type, tag it is written under) pair against the structure the spec puts directly around the type's items; wire probe: populated instances of every struct type through the real Encode, the tags of the emitted child items against the numbers the annotations denote (the numbers GenC19 proves equal to the spec's). distinct = one per field / per (type, container) pair"
 	r.Exhaustive = true
 	rep, err := d.Ask("c19")
 	if err != nil || !strings.HasPrefix(rep, "ok ") {
@@ -92,6 +98,7 @@ func runC19(r *Result, d *drv.Driver, tier string, seed int64, replay string) {
 	rr := kmip.RevokeRequest{RevocationReason: kmip.RevocationReason{RevocationReasonCode: 1, RevocationMessage: "m"}}
 	out, _, _ = realEncode(rr)
 	r.sample(map[string]string{"value": "RevokeRequest{RevocationReason:{Code:1, Message:\"m\"}}", "real_encode": out})
+	c19Wire(r, seed, tier)
 	if len(parts) == 2 && parts[1] != "" {
 		for _, e := range strings.Split(parts[1], ";") {
 			f := strings.Split(e, "|")
@@ -103,6 +110,154 @@ func runC19(r *Result, d *drv.Driver, tier string, seed int64, replay string) {
 				r.find(Finding{Kind: "violation", What: "field " + f[1] + " is not under the tag KMIP 1.4 assigns", Input: map[string]string{"field": f[1], "annotation": f[2]}, Expect: f[3], Actual: f[4]})
 			case "nesting":
 				r.find(Finding{Kind: "violation", What: "nesting: " + f[1] + " is not directly inside the structure KMIP 1.4 requires", Input: map[string]string{"type": f[1]}, Expect: f[3], Actual: f[4]})
+			}
+		}
+	}
+}
+
+// c19Wire encodes populated instances of every annotated struct type with the real Encode and compares the tags of the
+// items directly inside the emitted structure, in order, with the tag constants the fields' annotations name.
+func c19Wire(r *Result, seed int64, tier string) {
+	tagNum := map[string]uint32{}
+	for _, c := range gentab.Consts {
+		if c.Typ == "Tag" {
+			tagNum[c.Name] = uint32(c.Num)
+		}
+	}
+	per := 6
+	if tier == "thorough" {
+		per = 60
+	}
+	g := gen.New(seed + 77)
+	g.WF = true
+	types := gen.StructTypes()
+	names := make([]string, 0, len(types))
+	for n := range types {
+		names = append(names, n)
+	}
+	sort.Strings(names)
+	covered := map[string]bool{}
+	for _, n := range names {
+		t := types[n]
+		fields := render.Fields(t)
+		for k := 0; k < per; k++ {
+			p := g.NewStruct(t)
+			topUp(p.Elem(), 0)
+			res, b, _ := realEncode(p.Interface())
+			r.Evaluations++
+			if !strings.HasPrefix(res, "ok") {
+				r.Stats["c19wire:encode-"+res]++
+				continue
+			}
+			out := hex.EncodeToString(b)
+			top := mut.Parse(b)
+			if len(top) != 1 {
+				r.find(Finding{Kind: "violation", What: "Encode of " + n + " did not emit exactly one item", Input: map[string]string{"type": n, "bytes": out}})
+				continue
+			}
+			var want []uint32
+			var wantNames []string
+			for _, f := range fields {
+				if f.Skip || f.TagName == "-" {
+					continue
+				}
+				fv := p.Elem().Field(f.Index)
+				if tm, isT := fv.Interface().(time.Time); isT && fv.Kind() == reflect.Struct {
+					if !f.Required && tm.IsZero() {
+						continue
+					}
+				} else if !f.Required && fv.IsZero() {
+					continue
+				}
+				reps := 1
+				if fv.Kind() == reflect.Slice && fv.Type().Elem().Kind() != reflect.Uint8 {
+					reps = fv.Len()
+				}
+				for i := 0; i < reps; i++ {
+					want = append(want, tagNum[f.TagName])
+					wantNames = append(wantNames, n+"."+f.Name)
+				}
+			}
+			var got []uint32
+			for _, kid := range top[0].Kids {
+				got = append(got, kid.Tag)
+			}
+			r.Stats["c19wire:instances"]++
+			ok := len(got) == len(want)
+			for i := 0; ok && i < len(got); i++ {
+				ok = got[i] == want[i]
+			}
+			for _, w := range wantNames {
+				covered[w] = true
+			}
+			if !ok {
+				r.find(Finding{Kind: "violation", What: "wire tags of " + n + "'s fields as emitted by Encode differ from the tags their annotations name",
+					Input:  map[string]string{"type": n, "value": render.Struct(p.Interface()), "bytes": out, "fields": strings.Join(wantNames, ",")},
+					Expect: fmt.Sprintf("%x", want), Actual: fmt.Sprintf("%x", got)})
+				break
+			}
+		}
+	}
+	r.Stats["c19wire:fields-observed-on-the-wire"] = len(covered)
+}
+
+// topUp makes zero-valued plain fields non-zero (selectors and dynamic fields are left as generated)
+func topUp(v reflect.Value, depth int) {
+	if depth > 4 {
+		return
+	}
+	t := v.Type()
+	dynSel := map[string]bool{}
+	for _, f := range render.Fields(t) {
+		if f.Type.Kind() == reflect.Interface {
+			dynSel["*"] = true
+		}
+	}
+	for _, f := range render.Fields(t) {
+		fv := v.Field(f.Index)
+		if f.Skip || f.Type.Kind() == reflect.Interface {
+			continue
+		}
+		switch fv.Kind() {
+		case reflect.Struct:
+			if fv.Type() == reflect.TypeOf(time.Time{}) {
+				if fv.Interface().(time.Time).IsZero() {
+					fv.Set(reflect.ValueOf(time.Unix(1700000000, 0)))
+				}
+			} else {
+				topUp(fv, depth+1)
+			}
+		case reflect.Slice:
+			if fv.Type().Elem().Kind() == reflect.Uint8 {
+				if fv.Len() == 0 {
+					fv.SetBytes([]byte{1})
+				}
+			} else if fv.Len() == 0 && depth < 3 {
+				s := reflect.MakeSlice(fv.Type(), 1, 1)
+				if s.Index(0).Kind() == reflect.Struct && s.Index(0).Type() != reflect.TypeOf(time.Time{}) {
+					topUp(s.Index(0), depth+1)
+				}
+				fv.Set(s)
+			} else {
+				for i := 0; i < fv.Len(); i++ {
+					if fv.Index(i).Kind() == reflect.Struct && fv.Index(i).Type() != reflect.TypeOf(time.Time{}) {
+						topUp(fv.Index(i), depth+1)
+					}
+				}
+			}
+		case reflect.String:
+			if fv.Len() == 0 && !dynSel["*"] {
+				fv.SetString("x")
+			}
+		case reflect.Bool:
+			fv.SetBool(true)
+		case reflect.Int32, reflect.Int64:
+			if fv.Int() == 0 {
+				fv.SetInt(1000000000)
+			}
+		case reflect.Uint32:
+			if fv.Uint() == 0 && !dynSel["*"] {
+				fv.SetUint(1)
 			}
 		}
 	}
